@@ -289,6 +289,53 @@ def k5_run(carve):
     return _enum_outcome("a cast of a literal operand gives the value of the cast of a column holding that value, and Polars and SQLite agree on the values (6 source types x 7 targets x 3 values)", n, bad)
 
 
+def k8_run(carve):
+    """the VALUE of a cast is usable like a stored value of the target type: a Date cast to Datetime equals / orders against
+    Datetime columns and literals, prints like one, and casts back (native, Python oracle, both backends)"""
+    import datetime as dt
+    import warnings
+
+    import polars as pl
+    import sqlalchemy as sqa
+
+    from .c13 import _enum_outcome
+
+    pdt = H.pdt
+    ds = [dt.date(2020, 1, 2), None, dt.date(1999, 12, 31), dt.date(2020, 2, 29)]
+    ts = [dt.datetime(2020, 1, 2), dt.datetime(2020, 1, 2, 1), dt.datetime(1999, 12, 31, 0, 0, 0, 5), dt.datetime(2020, 2, 28, 23, 59, 59)]
+    mid = [None if d is None else dt.datetime(d.year, d.month, d.day) for d in ds]
+
+    def N(f):
+        return lambda a, b: None if a is None or b is None else f(a, b)
+
+    want = {
+        "eq": [N(lambda a, b: a == b)(a, b) for a, b in zip(mid, ts)], "le": [N(lambda a, b: a <= b)(a, b) for a, b in zip(mid, ts)], "lt": [N(lambda a, b: a < b)(a, b) for a, b in zip(mid, ts)],
+        "eql": [None if a is None else a == dt.datetime(2020, 1, 2) for a in mid], "s": [None if a is None else a.strftime("%Y-%m-%d %H:%M:%S.%f") for a in mid],
+        "mx": [max([x for x in (a, b) if x is not None]) for a, b in zip(mid, ts)], "h": [None if a is None else 0 for a in mid], "back": ds,
+        "i2f": [2.0, None, -3.0, 0.0], "f2i": [2, None, -3, 0], "b2i": [1, None, 0, 1],
+    }
+    df = pl.DataFrame({"d": pl.Series(ds, dtype=pl.Date), "t": pl.Series(ts, dtype=pl.Datetime("us")), "i": [2, None, -3, 0], "f": [2.9, None, -3.9, 0.4], "b": [True, None, False, True], "h": [0, 1, 2, 3]})
+    eng = sqa.create_engine("sqlite://")
+    df.write_database("t", eng)
+    n, bad = 0, []
+    with warnings.catch_warnings():
+        warnings.simplefilter("ignore")
+        for be, t in (("polars", pdt.Table(df, name="t")), ("sqlite", pdt.Table("t", pdt.SqlAlchemy(eng)))):
+            c = t.d.cast(pdt.Datetime())
+            exprs = {"eq": c == t.t, "le": c <= t.t, "lt": c < t.t, "eql": c == dt.datetime(2020, 1, 2), "s": c.cast(pdt.String()), "mx": pdt.max(c, t.t), "h": c.dt.hour(), "back": c.cast(pdt.Date()),
+                     "i2f": t.i.cast(pdt.Float64()) + 0.0, "f2i": t.f.cast(pdt.Int64()) + 0, "b2i": t.b.cast(pdt.Int64()) + 0}
+            for name, e in exprs.items():
+                n += 1
+                try:
+                    got = (t >> pdt.mutate(r=e) >> pdt.arrange(t.h) >> pdt.export(pdt.Polars()))["r"].to_list()
+                except Exception as ex:  # noqa: BLE001
+                    bad.append(f"[{be}] {name}: raises {type(ex).__name__}: {str(ex)[:100]}")
+                    continue
+                if got != want[name]:
+                    bad.append(f"[{be}] {name} of d.cast(Datetime) / numeric casts: {got}; documented {want[name]}")
+    return _enum_outcome("cast results take part in later comparisons / functions / casts like stored values of the target type", n, bad)
+
+
 def k7_run(carve):
     """native: casts do not depend on how the source table was handed to Table(): dict, eager frame, LazyFrame, with Datetime
     columns of every polars time unit (the library works with microseconds throughout) - the cast results are the documented
@@ -380,6 +427,8 @@ def obligations(tier):
     ]
     obs.append(Obligation("C17/K5/literal_operands", "K5", "casts of literal (const) operands agree with casts of columns, natively on both backends", k5_run,
                           functions=cfns + [fi(H.sqlite_backend.SqliteImpl.compile_cast), fi(H.polars_backend.compile_col_expr), fi(H.sql_backend.SqlImpl.compile_lit)], bounded="6 source types x 7 targets x 3 sample values x 2 backends, plus 10 nested cast chains (native execution)"))
+    obs.append(Obligation("C17/K8/cast_values_in_use", "K8", "a cast result compares, orders, prints and casts back like a stored value of the target type (Date -> Datetime; numeric casts)", k8_run, functions=cfns + [fi(H.sqlite_backend.SqliteImpl.compile_cast)],
+                          bounded="11 uses of cast results x 2 backends on 4 rows"))
     obs.append(Obligation("C17/K7/source_forms", "K7", "cast results do not depend on the form of the source (dict / DataFrame / LazyFrame, Datetime time units)", k7_run, functions=cfns + [fi(H.polars_backend.PolarsImpl.__init__)],
                           bounded="7 source forms x 4 casts on 4 rows"))
     obs.append(Obligation("C17/K6/result_type", "K6", "x.cast(T) has type T (no cast is dropped), for columns, expressions, C-references and literals", k6_run, functions=cfns + [fi(H.col_expr_mod.ColExpr.cast)],
